@@ -329,19 +329,36 @@ RULE = ("description sets over ids A..H, dotted ids T.A/T.B/T.U.C and TEXT/NAME:
         "configuration (flat or nested), a custom or the real BUILT_IN_CONFIG and 0-4 later registrations (direct "
         "add_new_items or a Palette class with nested SYNTAX_DEFAULTS) with overlapping ids (first registration wins), "
         "all permutations of small sets, get_palette() calls in between, no_color configurations; a malformed-string "
-        "stream for the parser.  Non-trivial = at least one description with a parent.")
+        "stream for the parser.  Sessions (kind world:*) on the module state of a freshly re-imported ak.color: 1-3 Palette "
+        "classes (own SYNTAX_DEFAULTS flat or nested, PARENT_PALETTES, shared defaults dictionaries, ConfColor accessors on "
+        "own / foreign / standard ids, GlobalPalette subclasses), several ColorsConfig objects (custom or real "
+        "BUILT_IN_CONFIG, no_color), 4-12 calls of ColorsConfig(...), set_global_colors_config(conf / None), Cls(synced=True), "
+        "conf.add_new_items, Cls.register_in_colors_conf, Cls(conf) / Cls() / PaletteUser._mk_palette, conf.get_palette(); "
+        "scenarios: components with synced palettes first then a configuration whose explicit items refer to ids only their "
+        "defaults provide is installed, the global configuration modified in place, ONE defaults dictionary registered in "
+        "several configurations.  All dictionaries live in a pool and are passed by reference every time they are used; after "
+        "every call every access path is observed (get_color of every configuration, accessor attributes and [id] of every "
+        "synced palette, the palette just obtained, identity of the global configuration) and every dictionary is compared "
+        "with its original text.  Non-trivial = at least one description with a parent / a session that registers or installs.")
 TRUSTED_BASE = [
     "gen/C14_Consts.v: _COLORS, the modifier SGR codes and their order in _ColorSequences.make, _MODIFIERS, the shape of "
     "_COLORS_NAMES, the statements of both branches of _ColorConfColorDescr.resolve, DFLT_SYNTAX_ID, BUILT_IN_CONFIG and the "
     "GlobalPalette accessors are read from ak/color.py by harness/props/c14.py:extract_consts (ast, fail-closed)",
     "Python str.split/strip/int and dict ordering as modelled in coq/C14/Base.v (ASCII inputs only; cases with other code points are oracle-only)",
+    "gen/C14_Consts.v reg_recheck: the statement shape of Palette.register_in_colors_conf (is `already registered?` asked again "
+    "after the PARENT_PALETTES loop) is read from the source (fail-closed); the rest of the module-state model (C14/World.v) is "
+    "hand-written and tied to the code by the session cases only",
 ]
 ASSUMPTIONS = ["descriptions are str values in (nested) dicts with str keys; syntax ids contain no ':' '/' ','",
-               "the configuration object is not the global one (re-sync of synced palettes is C10's subject)",
+               "sessions: synced palettes are created with no_color=False; no_color palettes and CompoundPalette are not driven",
                "registration stops at the first exception (the state after a failed add_new_items is not modelled)"]
 MODELLED = ("ak/color.py: _ColorConfColorDescr (_parse_init_str and helpers, resolve), ColorsConfig.__init__/add_new_items/"
             "_flatten_dict/get_color/get_palette cache, _ColorSequences.make/_make_seq_element for the resolved values; "
-            "make_report and CompoundPalette/synced palettes are not modelled")
+            "C14/World.v: the module state - _GLOBAL_COLORS_CONF, get/set_global_colors_config, _GSYNCED_PALETTES and the "
+            "recursive re-sync from add_new_items (`any_modifications and self is _GLOBAL_COLORS_CONF`), "
+            "Palette.register_in_colors_conf (registered_sources, PARENT_PALETTES, its re-entrancy), _PaletteMeta.__call__ for "
+            "synced and cached non-synced palettes, Palette/GlobalPalette._sync_with_config; make_report, CompoundPalette and "
+            "no_color palettes are not modelled")
 
 # ------------------------------------------------------------------ generators
 COLOR_NAMES = ["BLACK", "RED", "GREEN", "YELLOW", "BLUE", "MAGENTA", "CYAN", "WHITE"]
@@ -579,7 +596,7 @@ def gen_cases(rng, tier):
     for s in ["RED:bold ", "１２", "Aé:bold", " BLUE"]:
         cases.append({"nc": False, "init": {"A": "GREEN", "B": s}, "builtin": {}, "watch": ["A", "B"], "ops": []})
     # 8. sessions on the module state: several configurations, the global one, synced palettes, shared dictionaries
-    cases += _world_cases(rng, 2500 if big else 220)
+    cases += _world_cases(rng, 2500 if big else 300)
     return cases
 
 
@@ -1156,7 +1173,7 @@ def _rand_world(rng, scenario=None):
             ops.append({"k": "pal", "c": cref()})
 
     if scenario is None:
-        scenario = rng.choice(["install", "install", "reuse", "free"])
+        scenario = rng.choice(["install", "install", "live", "reuse", "free"])
     if scenario == "install":
         # components with synced palettes exist, then the application installs its configuration
         order = list(range(1, ncls + 1))
@@ -1167,6 +1184,22 @@ def _rand_world(rng, scenario=None):
         if rng.random() < 0.25:
             ops.append({"k": rng.choice(["pal", "regcls", "use"]), "c": c, "cls": rng.randrange(1, ncls + 1), "via": "ctor"})
         ops.append({"k": "setg", "c": c})
+    elif scenario == "live":
+        # synced palettes exist (and their classes are registered), then the global configuration is modified in place
+        order = list(range(1, ncls + 1))
+        rng.shuffle(order)
+        for k in order[:rng.choice([1, 2, 3])]:
+            ops.append({"k": "synced", "cls": k})
+        if rng.random() < 0.5:
+            ops.append({"k": "setg", "c": op_new()})
+        for _ in range(rng.choice([1, 2, 3])):
+            r = rng.random()
+            if r < 0.6:
+                ops.append({"k": "reg", "c": None, "items": rng.choice(regs * 3 + flat_objs)})
+            elif r < 0.8:
+                ops.append({"k": "use", "cls": rng.randrange(1, ncls + 1), "c": None, "via": rng.choice(["ctor", "user"])})
+            else:
+                ops.append({"k": "regcls", "cls": rng.randrange(1, ncls + 1), "c": None})
     elif scenario == "reuse":
         # the same defaults dictionary registered directly in several configurations
         o = rng.choice(regs)
@@ -1605,12 +1638,22 @@ LEVEL_TEXT = ("Full (about the model): resolve_correct (for ALL histories of reg
               "chain is complete and yields r, get_color = formatter of the resolution / effect-free while pending / default "
               "syntax for unknown ids), order_independent + order_independent_perm + batching_irrelevant, explicit_wins, "
               "later_registration_completes, no_color_plain and no_color_always (no hypotheses), palette_current, "
-              "flatten_nested, parser_colors_wf (no parsed description can make ColorFmt raise), consts_ok.  The statements of "
+              "flatten_nested, parser_colors_wf (no parsed description can make ColorFmt raise), consts_ok; for the module state "
+              "(several configurations, set_global_colors_config, Palette classes with SYNTAX_DEFAULTS / PARENT_PALETTES, synced "
+              "palettes and the recursive re-sync; C14/World.v) synced_current (whenever a sequence of API calls returns, every "
+              "synced palette carries exactly the formatters the global configuration gives now for its accessors and points to "
+              "it - no hypothesis on the descriptions), world_confs_are_histories (every configuration object of a session is the "
+              "result of a registration history, so resolve_correct etc. apply to it) and synced_resolve_correct (their "
+              "combination).  The statements of "
               "resolve() (both branches), the colour/modifier tables, _COLORS_NAMES, BUILT_IN_CONFIG, DFLT_SYNTAX_ID and the "
               "GlobalPalette accessors are re-read from the source on every run and the obligations about them re-proved.  "
               "Tested only (correspondence + oracle, not proved): that the parser accepts exactly the documented grammar "
-              "(only 'accepted => well-formed colours' is proved), make_report, synced/compound palettes and the global "
-              "configuration re-sync, non-ASCII input.")
+              "(only 'accepted => well-formed colours' is proved), make_report, compound and no_color palettes, the cache of "
+              "non-synced palettes of user classes (modelled, compared, not proved current), that the calls of a session do not "
+              "raise (the session theorems are conditional on normal return; the re-entrancy AssertionError repaired by a35bf60 "
+              "is reproduced by the model from the statement shape of register_in_colors_conf), that no argument dictionary is "
+              "modified (arguments are values in the model: a dictionary used twice has the same contents; the harness passes "
+              "every dictionary by reference, re-uses it and compares it with its original after every call), non-ASCII input.")
 LEVEL_NOTE = ("Trusted: Coq kernel + vm_compute; the hand model's fidelity (checked by correspondence, not proved); the ast "
               "extractor and harness; Python str.split/strip/int as modelled for ASCII.")
 DESIGN_REF = "DESIGN.md section 8, C14"
